@@ -810,6 +810,10 @@ func ruleC03Pool(r *Run) {
 		eachInstr(f, func(in ssa.Instruction) {
 			if a, ok := in.(*ssa.Alloc); ok {
 				if p, ok := a.Type().(*types.Pointer); ok && types.Identical(p.Elem(), rwT) {
+					if rwValueTemp(w, a) {
+						r.Check(rule, FuncName(f)+":responseWriter value", w.InstrPos(in), true, "a responseWriter value that is only filled in and then copied into a Context's writer field (no pointer to it escapes)")
+						return
+					}
 					r.Check(rule, FuncName(f)+":new responseWriter", w.InstrPos(in), false, "a responseWriter outside a Context breaks the per-request ownership argument")
 				}
 			}
@@ -1027,4 +1031,58 @@ func poolCtorFns(w *World) []*ssa.Function {
 		})
 	}
 	return out
+}
+
+// rwValueTemp: the local responseWriter cell is a pure value temporary — its fields are stored, and the whole
+// value is loaded only to be stored into the writer field of a Context; its address goes nowhere else.
+func rwValueTemp(w *World, a *ssa.Alloc) bool {
+	if a.Heap {
+		return false
+	}
+	writerF := w.Field("rux", "Context", "writer")
+	for _, ref := range *a.Referrers() {
+		switch x := ref.(type) {
+		case *ssa.DebugRef:
+		case *ssa.FieldAddr:
+			for _, r2 := range *x.Referrers() {
+				if st, ok := r2.(*ssa.Store); !ok || st.Addr != ssa.Value(x) {
+					if _, isDbg := r2.(*ssa.DebugRef); !isDbg {
+						return false
+					}
+				}
+			}
+		case *ssa.Store:
+			if x.Addr != ssa.Value(a) {
+				return false
+			}
+			// initialised from another value (a zero value or a literal): fine
+		case *ssa.UnOp:
+			if x.Op != token.MUL {
+				return false
+			}
+			for _, r2 := range *x.Referrers() {
+				st, ok := r2.(*ssa.Store)
+				if !ok {
+					if _, isDbg := r2.(*ssa.DebugRef); isDbg {
+						continue
+					}
+					if st2, isSt := r2.(*ssa.Store); isSt {
+						_ = st2
+					}
+					// stored into another value temp of the same kind
+					return false
+				}
+				if fa, isFA := st.Addr.(*ssa.FieldAddr); isFA && fieldVar(fa.X.Type(), fa.Field) == writerF {
+					continue
+				}
+				if a2, isAl := st.Addr.(*ssa.Alloc); isAl && a2 != a && rwValueTemp(w, a2) {
+					continue
+				}
+				return false
+			}
+		default:
+			return false
+		}
+	}
+	return true
 }
